@@ -10,6 +10,8 @@ import math
 import cbor2
 import re
 
+from collections.abc import Mapping
+
 from suit_generator.exceptions import GeneratorError
 
 CACHE_CREATE_CMD = "cache_create"
@@ -237,7 +239,9 @@ class CacheFromEnvelope:
         except Exception:
             raise GeneratorError("The provided envelope/dependency envelope is not a valid envelope!")
 
-        if isinstance(envelope, cbor2.CBORTag) and isinstance(envelope.value, dict):
+        if isinstance(envelope, cbor2.CBORTag) and isinstance(envelope.value, Mapping):
+            # cbor2 >= 6 decodes maps to immutable mappings - keep a mutable copy of the envelope content
+            envelope = cbor2.CBORTag(envelope.tag, dict(envelope.value))
             integrated = [k for k in envelope.value.keys() if isinstance(k, str)]
         else:
             raise GeneratorError("The provided envelope/dependency envelope is not a valid envelope!")
